@@ -71,14 +71,23 @@ def algText (s : Bytes) : Bytes :=
   | some r => r.2.toList.map Char.toNat
   | none => s
 
+/-- the range of seconds the code turns into a date: |n| < 2^k, k regenerated from the guard in `unixTime` -/
+def inDateRange (n : Int) : Bool := n.natAbs < 2 ^ Gen.jwtDateBoundLog2
+
 /-- the converters; `none` = "not shown" -/
 def convert (conv : String) (v : JVal) : Option Bytes :=
   let shown (s : Bytes) : Option Bytes := if Gen.jwtEmptyShown ∨ ¬ s.isEmpty then some s else none
   match conv, v with
   | "str", .str s => shown s
   | "sigAlg", .str s => shown (algText s)
-  | "unixTime", .str s => (atoi s).map Civil.fmtDateTime
-  | "unixTime", .num n => if Gen.jwtNumericDates then some (Civil.fmtDateTime n) else none
+  | "unixTime", .str s =>
+    -- a string under a date name: a decimal integer within the range of dates is shown as that date; with the verbatim
+    -- fallback (regenerated fact) any other string is shown as it stands, without it nothing is shown
+    match atoi s with
+    | some i => if inDateRange i then some (Civil.fmtDateTime i)
+                else if Gen.jwtDateStringFallback then shown s else some (Civil.fmtDateTime i)
+    | none => if Gen.jwtDateStringFallback then shown s else none
+  | "unixTime", .num n => if Gen.jwtNumericDates ∧ inDateRange n then some (Civil.fmtDateTime n) else none
   | _, _ => none
 
 def paramOf (k : String) : Option (String × String) :=
